@@ -114,9 +114,13 @@ CuratedWits ==
                                 <<"L", "P1", "P2", "P3">>, <<"L", "P1", "P2", "P1b">>, <<"R1", "L">>}}
   \cup {W("list", <<"L">>, TRUE), W("list", <<"L", "P1">>, TRUE), W("list", <<"P1">>, TRUE)}
 
-\* all witnesses up to length 3 over the item alphabet (thorough tier)
+\* thorough tier: all witnesses up to length 2 over the item alphabet and all of length 3 over its core (one item per
+\* role: lock key and its second signature, co-signers, a foreign key, garbage) - 387 witnesses; the full alphabet at
+\* length 3 (1899) makes the verify-level table exceed TLC's set size limit
+CoreItems == {"L", "P1", "P1b", "P2", "F", "G"}
 AllWits ==
-  SpecialWits \cup {W("list", s, d) : s \in UNION {[1..n -> Items] : n \in 1..3}, d \in {FALSE}}
+  SpecialWits \cup {W("list", s, FALSE) : s \in UNION {[1..n -> Items] : n \in 1..2}}
+  \cup {W("list", s, FALSE) : s \in [1..3 -> CoreItems]}
   \cup {W("list", <<a>>, TRUE) : a \in Items}
 
 Thorough == IOEnv.VERIF_TIER = "thorough"
